@@ -212,6 +212,7 @@ def run(repo, rep, tier):
                         % (which, sp['edge'], sp['limit'], sp['rec']))
     _r5_sizes(repo, rep, cls)
     _r6_tables(repo, rep, cls)
+    _r7_sentinels(repo, rep, cls)
 
 
 # ---------------------------------------------------------------------------
@@ -643,3 +644,69 @@ def _r6_tables(repo, rep, cls):
         r6.undecided.append('range membership test not in the recognised '
                             'form (for ... in _b2v_range_tuple_list with a '
                             'comparison)')
+
+
+def _r7_sentinels(repo, rep, cls):
+    """C20.R7: an attribute whose absent state is None and whose present
+    state is an arbitrary Values string (which may be '') is tested with
+    `is None` / `is not None`, never by truthiness."""
+    r7 = rep.rule('C20.R7', 'None-sentinel attributes holding Values strings '
+                  'are tested with `is None`, not by truthiness')
+    build = cls.methods['_create_for_element']
+    none_init, str_set = set(), set()
+    for n in walk_no_nested(build.node):
+        if isinstance(n, ast.Assign) and len(n.targets) == 1 and \
+                isinstance(n.targets[0], ast.Attribute):
+            a = n.targets[0].attr
+            if isinstance(n.value, ast.Constant) and n.value.value is None:
+                none_init.add(a)
+            elif isinstance(n.value, ast.Name):
+                str_set.add(a)
+    sent = none_init & str_set
+    if not sent:
+        raise AnalysisError('_create_for_element: no None-sentinel attribute '
+                            'found (expected _b2v_unclaimed)')
+
+    def truthiness_uses(test, out):
+        """attribute nodes used for their truth value in a condition"""
+        if isinstance(test, ast.BoolOp):
+            for v in test.values:
+                truthiness_uses(v, out)
+        elif isinstance(test, ast.UnaryOp) and isinstance(test.op, ast.Not):
+            truthiness_uses(test.operand, out)
+        elif isinstance(test, ast.Attribute):
+            out.append(test)
+    for m in cls.methods.values():
+        for n in walk_no_nested(m.node):
+            tests = []
+            if isinstance(n, (ast.If, ast.While, ast.IfExp)):
+                tests.append(n.test)
+            elif isinstance(n, ast.BoolOp):
+                tests.append(n)
+            elif isinstance(n, ast.Assert):
+                tests.append(n.test)
+            for t in tests:
+                uses = []
+                truthiness_uses(t, uses)
+                for u in uses:
+                    if u.attr in sent and norm(u.value) in ('self', 'vm'):
+                        rep.finding(r7, m.qualname, norm(t, 60),
+                                    'truthiness-of-sentinel', VM, u.lineno,
+                                    '%s is None when the ValueMap has no '
+                                    '".." entry and a Values string '
+                                    'otherwise; that string may be empty '
+                                    '(values_default=\'\'), so a truthiness '
+                                    'test treats an existing entry as absent'
+                                    % norm(u))
+        for n in walk_no_nested(m.node):
+            if isinstance(n, ast.Compare) and \
+                    isinstance(n.left, ast.Attribute) and \
+                    n.left.attr in sent and len(n.ops) == 1 and \
+                    isinstance(n.ops[0], (ast.Is, ast.IsNot)):
+                r7.sites += 1
+                r7.functions.add(m.fq)
+                r7.ob(True, '%s|%s' % (m.qualname, norm(n)),
+                      {'test': norm(n), 'sentinel': n.left.attr})
+    if r7.sites == 0 and not r7.findings:
+        raise AnalysisError('no test of the sentinel attribute(s) %s found'
+                            % sorted(sent))
